@@ -1471,7 +1471,17 @@ func (c *FnCtx) equal(a, b Val) string {
 		if b.K == KIface {
 			return fmt.Sprintf("(and (= %s %s) (= %s %s) (= %s %s))", a.T, b.T, a.IVal, b.IVal, a.IStr, b.IStr)
 		}
-		return fmt.Sprintf("(= %s 0)", a.T) // nil
+		if b.T == "0" || b.Typ == nil || b.Typ == types.Typ[types.UntypedNil] {
+			return fmt.Sprintf("(= %s 0)", a.T) // nil
+		}
+		// a concrete value (contract clauses only: the compiler boxes it first): boxed the way the code boxes it
+		switch b.K {
+		case KStr:
+			return fmt.Sprintf("(and (= %s %s) (= %s %s))", a.T, c.eng.typeTag(b.Typ), a.IStr, b.T)
+		case KBool, KStruct, KTuple, KSlice:
+			panic(contractError{"comparison of an interface with a composite value is not supported"})
+		}
+		return fmt.Sprintf("(and (= %s %s) (= %s %s) (= %s \"\"))", a.T, c.eng.typeTag(b.Typ), a.IVal, b.T, a.IStr)
 	case a.K == KSlice && b.K == KSlice:
 		return fmt.Sprintf("(and (= %s %s) (= %s %s) (= %s %s))", a.T, b.T, a.Len, b.Len, a.Cap, b.Cap)
 	case a.K == KSlice || b.K == KSlice:
